@@ -1,5 +1,7 @@
 package hash
 
+import "slices"
+
 type merkleDamgardHasher struct {
 	state []byte
 	iv    []byte
@@ -9,28 +11,32 @@ type merkleDamgardHasher struct {
 // Write implements hash.Write
 func (h *merkleDamgardHasher) Write(p []byte) (n int, err error) {
 	blockSize := h.f.BlockSize()
+	total := len(p)
 	for len(p) != 0 {
 		if len(p) < blockSize {
 			p = append(make([]byte, blockSize-len(p), blockSize), p...)
 		}
-		if h.state, err = h.f.Compress(h.state, p[:blockSize]); err != nil {
+		var newState []byte
+		if newState, err = h.f.Compress(h.state, p[:blockSize]); err != nil {
 			return
 		}
+		h.state = newState
 		n += blockSize
 		p = p[blockSize:]
 	}
-	return
+	// the last block may have been padded: report the bytes consumed from the
+	// caller's slice (io.Writer requires n <= len(p)).
+	return total, nil
 }
 
+// Sum appends the current hash to b and returns the resulting slice.
+// It does not change the underlying hash state.
 func (h *merkleDamgardHasher) Sum(b []byte) []byte {
-	if _, err := h.Write(b); err != nil {
-		panic(err)
-	}
-	return h.state
+	return append(b, h.state...)
 }
 
 func (h *merkleDamgardHasher) Reset() {
-	h.state = h.iv
+	h.state = slices.Clone(h.iv)
 }
 
 func (h *merkleDamgardHasher) Size() int {
@@ -41,12 +47,14 @@ func (h *merkleDamgardHasher) BlockSize() int {
 	return h.f.BlockSize()
 }
 
+// State returns a copy of the current state.
 func (h *merkleDamgardHasher) State() []byte {
-	return h.state
+	return slices.Clone(h.state)
 }
 
+// SetState sets the state to a copy of the given value.
 func (h *merkleDamgardHasher) SetState(state []byte) error {
-	h.state = state
+	h.state = slices.Clone(state)
 	return nil
 }
 
@@ -66,8 +74,8 @@ func (h *merkleDamgardHasher) SetState(state []byte) error {
 // using a deterministic method.
 func NewMerkleDamgardHasher(f Compressor, initialState []byte) StateStorer {
 	return &merkleDamgardHasher{
-		state: initialState,
-		iv:    initialState,
+		state: slices.Clone(initialState),
+		iv:    slices.Clone(initialState),
 		f:     f,
 	}
 }
